@@ -5,6 +5,7 @@ import (
 	"encoding/binary"
 	"fmt"
 	"math"
+	"os"
 	"strconv"
 	"strings"
 	"time"
@@ -41,18 +42,20 @@ func u32(vs ...uint32) []byte {
 }
 
 type m4Tables struct {
-	ts       uint32
-	track    bool // metadata track present
-	stsc     [][2]uint32
-	stts     [][2]uint32
-	sizes    []uint32
-	uniform  uint32
-	sampleNr uint32
-	co       []uint64
-	co64     bool
-	noCo     bool
-	spareCo  int // with stco present: also a co64 box (ignored by the decoder) holding this many fewer entries (0: none)
-	extra    int // 0 none, 1 video track first, 2 other meta track first, 3 both
+	ts        uint32
+	track     bool // metadata track present
+	stsc      [][2]uint32
+	stts      [][2]uint32
+	sizes     []uint32
+	uniform   uint32
+	sampleNr  uint32
+	co        []uint64
+	co64      bool
+	noCo      bool
+	fastStart bool // moov before mdat ("fast start" files): the payload then runs to the very end of the file
+	shifted   bool
+	spareCo   int // with stco present: also a co64 box (ignored by the decoder) holding this many fewer entries (0: none)
+	extra     int // 0 none, 1 video track first, 2 other meta track first, 3 both
 }
 
 func (t *m4Tables) trak(handler, name string, meta bool) []byte {
@@ -61,7 +64,12 @@ func (t *m4Tables) trak(handler, name string, meta bool) []byte {
 	var stbl []byte
 	stsd := box("stsd", u32(0, 0))
 	if !meta {
-		stbl = box("stbl", stsd, box("stts", u32(0, 0)), box("stsc", u32(0, 0)), box("stsz", u32(0, 0, 0)), box("stco", u32(0, 0)))
+		stts := u32(0, 0)
+		if t.fastStart {
+			// mp4ff takes a first trak without stts entries, met before the mdat box, for a fragmented file
+			stts = u32(0, 1, 1, 1)
+		}
+		stbl = box("stbl", stsd, box("stts", stts), box("stsc", u32(0, 0)), box("stsz", u32(0, 0, 0)), box("stco", u32(0, 0)))
 	} else {
 		stts := u32(0, uint32(len(t.stts)))
 		for _, e := range t.stts {
@@ -116,7 +124,8 @@ func (t *m4Tables) file(payload []byte) []byte {
 	ftyp := box("ftyp", []byte("mp41"), u32(0), []byte("mp41"))
 	mdat := box("mdat", payload)
 	var traks [][]byte
-	if t.extra&1 != 0 {
+	if t.extra&1 != 0 || t.fastStart {
+		// (fast start: the video trak comes first, as the camera writes it; mp4ff looks at the first trak's stts)
 		traks = append(traks, t.trak("vide", "\tGoPro AVC", false))
 	}
 	if t.extra&2 != 0 {
@@ -131,6 +140,17 @@ func (t *m4Tables) file(payload []byte) []byte {
 	}
 	mvhd := box("mvhd", make([]byte, 100))
 	moov := box("moov", append([][]byte{mvhd}, traks...)...)
+	if t.fastStart {
+		if !t.shifted {
+			// the chunk offsets move by the size of the moov box (which does not depend on their values)
+			t.shifted = true
+			for i := range t.co {
+				t.co[i] += uint64(len(moov))
+			}
+			return t.file(payload)
+		}
+		return append(append(ftyp, moov...), mdat...)
+	}
 	return append(append(ftyp, mdat...), moov...)
 }
 
@@ -244,6 +264,9 @@ func m4Echo(toks []string, file []byte) bool {
 		return true
 	}
 	if err != nil || f.Moov == nil {
+		if os.Getenv("VERIF_DEBUG_M4") != "" {
+			fmt.Fprintf(os.Stderr, "DEBUG echo: err=%v\n", err)
+		}
 		return false
 	}
 	for _, trak := range f.Moov.Traks {
@@ -391,6 +414,7 @@ func m4Valid(r *rng, s *sink) (*m4Tables, []byte) {
 		}
 	}
 	t.co64 = r.chance(1, 3)
+	t.fastStart = r.chance(1, 3)
 	if !t.co64 && r.chance(1, 6) {
 		t.spareCo = 1 + r.intn(3)
 	}
